@@ -79,8 +79,8 @@ theorem exec_inv_mono (M : Machine σ α π) (P : Prog) (n : Nat) :
       cases as with
       | nil => exact Nat.le_refl _
       | cons a as =>
-        by_cases hem : ∃ e g, a = .emit e g
-        · obtain ⟨e, g, rfl⟩ := hem
+        by_cases hem : ∃ e g v, a = .emit e g v
+        · obtain ⟨e, g, v, rfl⟩ := hem
           rw [exec_acts_emit]
           refine Nat.le_trans ?_ (ih _ _ l s)
           split
@@ -89,13 +89,13 @@ theorem exec_inv_mono (M : Machine σ α π) (P : Prog) (n : Nat) :
             | none => exact Nat.le_refl _
             | some ap =>
               obtain ⟨a, p⟩ := ap
-              exact ih { r with m := m1 } (.loop a p) l s
+              exact ih ({ r with m := m1 }.mark (.emitBegin e g v)) (.loop a p v) l s
           · exact Nat.le_refl _
-        · have hne : ∀ e g, a ≠ .emit e g := fun e g he => hem ⟨e, g, he⟩
+        · have hne : ∀ e g v, a ≠ .emit e g v := fun e g v he => hem ⟨e, g, v, he⟩
           rw [exec_acts_prim _ _ _ _ _ _ hne]
           refine Nat.le_trans ?_ (ih _ _ l s)
           rw [prim_inv]; exact Nat.le_refl _
-    | loop a p =>
+    | loop a p v =>
       rw [exec_loop]
       cases hn : M.next r.m a p with
       | done => exact Nat.le_refl _
@@ -131,11 +131,11 @@ def TermA (b : Nat) : Prop :=
 
 /-- emission loops terminate when the budget is at most `b` -/
 def TermL (b : Nat) : Prop :=
-  ∀ (r : Run SState) (a : Nat × Nat) (snap : List Nat), r.oof = false → budget T r.inv ≤ b →
-    ∃ n, (exec Spec.machine (Prog.ofTable T) n r (.loop a snap)).oof = false
+  ∀ (r : Run SState) (a : Nat × Nat) (snap : List Nat) (v : Nat), r.oof = false → budget T r.inv ≤ b →
+    ∃ n, (exec Spec.machine (Prog.ofTable T) n r (.loop a snap v)).oof = false
 
 theorem termL_of_termA (b : Nat) (hA : TermA T b) : TermL T b := by
-  intro r a snap
+  intro r a snap v
   induction hl : snap.length using Nat.strongRecOn generalizing r snap with
   | _ k ih =>
     intro hoof hb
@@ -146,7 +146,7 @@ theorem termL_of_termA (b : Nat) (hA : TermA T b) : TermL T b := by
       by_cases hal : Spec.machine.aliveL r.m l = true
       · -- the slot body
         have hbud := budget_enter T r.inv (r.lIdx l) s
-        obtain ⟨n1, h1⟩ := hA (r.enter (r.lIdx l) s) ((Prog.ofTable T).script (r.lIdx l) s (r.inv (r.lIdx l) s)) hoof
+        obtain ⟨n1, h1⟩ := hA (r.enter (r.lIdx l) s v) ((Prog.ofTable T).script (r.lIdx l) s (r.inv (r.lIdx l) s)) hoof
           (by simp only [Run.enter]; omega)
         -- the rest of the loop
         have hrest : rest.length < k := by
@@ -159,7 +159,7 @@ theorem termL_of_termA (b : Nat) (hA : TermA T b) : TermL T b := by
               rw [← hn.2.2, ← hl]
               exact nextLive_shorter hnl
           · cases hn
-        have hb2 : budget T (exec Spec.machine (Prog.ofTable T) n1 (r.enter (r.lIdx l) s)
+        have hb2 : budget T (exec Spec.machine (Prog.ofTable T) n1 (r.enter (r.lIdx l) s v)
             (.acts ((Prog.ofTable T).script (r.lIdx l) s (r.inv (r.lIdx l) s)))).inv ≤ b := by
           refine Nat.le_trans (budget_mono (exec_inv_mono _ _ n1 _ _)) ?_
           simp only [Run.enter] at hbud ⊢
@@ -181,32 +181,32 @@ theorem termA_succ (b : Nat) (hA : TermA T b) : TermA T (b + 1) := by
   | cons a as ihas =>
     intro hoof hb
     simp only [List.length_cons] at hb
-    by_cases hem : ∃ e g, a = .emit e g
-    · obtain ⟨e, g, rfl⟩ := hem
+    by_cases hem : ∃ e g v, a = .emit e g v
+    · obtain ⟨e, g, v, rfl⟩ := hem
       -- the state after the emission
       have hsub : ∃ n1 r1, (∀ n, n1 ≤ n →
             (if Spec.machine.aliveE r.m (r.emId e) then
               match Spec.machine.begin (r.emId e) g r.m with
-              | (m1, none) => { r with m := m1 }
+              | (m1, none) => ({ r with m := m1 }.mark (.emitBegin e g v)).mark .emitEnd
               | (m1, some (a, p)) =>
-                { exec Spec.machine (Prog.ofTable T) n { r with m := m1 } (.loop a p) with
-                  m := Spec.machine.finish a (exec Spec.machine (Prog.ofTable T) n { r with m := m1 } (.loop a p)).m }
+                { exec Spec.machine (Prog.ofTable T) n ({ r with m := m1 }.mark (.emitBegin e g v)) (.loop a p v) with
+                  m := Spec.machine.finish a (exec Spec.machine (Prog.ofTable T) n ({ r with m := m1 }.mark (.emitBegin e g v)) (.loop a p v)).m }.mark .emitEnd
             else r) = r1) ∧ r1.oof = false ∧ budget T r1.inv ≤ budget T r.inv := by
         by_cases c : Spec.machine.aliveE r.m (r.emId e) = true
         · simp only [c, if_true]
           rcases hbg : Spec.machine.begin (r.emId e) g r.m with ⟨m1, o⟩
           cases o with
-          | none => exact ⟨0, { r with m := m1 }, fun _ _ => rfl, hoof, Nat.le_refl _⟩
+          | none => exact ⟨0, ({ r with m := m1 }.mark (.emitBegin e g v)).mark .emitEnd, fun _ _ => rfl, hoof, Nat.le_refl _⟩
           | some ap =>
             obtain ⟨a, p⟩ := ap
-            obtain ⟨n1, h1⟩ := hL { r with m := m1 } a p hoof (by show budget T r.inv ≤ b; omega)
-            refine ⟨n1, { exec Spec.machine (Prog.ofTable T) n1 { r with m := m1 } (.loop a p) with
-                m := Spec.machine.finish a (exec Spec.machine (Prog.ofTable T) n1 { r with m := m1 } (.loop a p)).m },
+            obtain ⟨n1, h1⟩ := hL ({ r with m := m1 }.mark (.emitBegin e g v)) a p v hoof (by show budget T r.inv ≤ b; omega)
+            refine ⟨n1, { exec Spec.machine (Prog.ofTable T) n1 ({ r with m := m1 }.mark (.emitBegin e g v)) (.loop a p v) with
+                m := Spec.machine.finish a (exec Spec.machine (Prog.ofTable T) n1 ({ r with m := m1 }.mark (.emitBegin e g v)) (.loop a p v)).m }.mark .emitEnd,
               fun n hn => ?_, ?_, ?_⟩
             · simp only
               rw [exec_fuel_mono _ _ n1 _ _ h1 n hn]
             · exact h1
-            · exact budget_mono (exec_inv_mono _ _ n1 { r with m := m1 } _)
+            · exact budget_mono (exec_inv_mono _ _ n1 ({ r with m := m1 }.mark (.emitBegin e g v)) _)
         · simp only [c]
           exact ⟨0, r, fun _ _ => rfl, hoof, Nat.le_refl _⟩
       obtain ⟨n1, r1, hr1, hoof1, hb1⟩ := hsub
@@ -218,7 +218,7 @@ theorem termA_succ (b : Nat) (hA : TermA T b) : TermA T (b + 1) := by
       refine Eq.trans e1 ?_
       rw [exec_fuel_mono _ _ n2 _ _ h2 (max n1 n2) (Nat.le_max_right ..)]
       exact h2
-    · have hne : ∀ e g, a ≠ .emit e g := fun e g he => hem ⟨e, g, he⟩
+    · have hne : ∀ e g v, a ≠ .emit e g v := fun e g v he => hem ⟨e, g, v, he⟩
       obtain ⟨n2, h2⟩ := ihas (r.prim Spec.machine a) (by rw [prim_oof]; exact hoof) (by rw [prim_inv]; omega)
       exact ⟨n2 + 1, by rw [exec_acts_prim _ _ _ _ _ _ hne]; exact h2⟩
 
